@@ -11,7 +11,7 @@ import vlib
 [vlib.build_model(a) for a in sorted(set(f[8:-2] for f in __import__("os").listdir("coq") if f.startswith("Extract_") and f.endswith(".v")))]
 vlib.build_repo("hooks")
 import os
-names = sorted(f.rsplit(".",1)[0] for f in os.listdir("harness/cpp") if f.endswith(".cpp") or f.endswith(".c"))
+names = sorted(f.rsplit(".",1)[0] for f in os.listdir("harness/cpp") if (f.endswith(".cpp") or f.endswith(".c")) and not f.rsplit(".",1)[0].endswith("_shim"))
 vlib.build_drivers(names, "hooks")
 print("setup ok:", names)
 PY
